@@ -51,3 +51,18 @@ PROPS = {
         'assumptions': ['decoders, byte-string escaping and EncodeIndexDataStoreKey are hand transcriptions tied by the correspondence run; integer, float, bool, null, time encoders and PeekType are generated from the source'],
     },
 }
+
+MANIFEST_TEXT = {
+    'C17': {'text': 'Order preservation and round-trip of the integer and float64 key codecs are Coq theorems about Gallina functions regenerated from internal/encoding on every run; decoders, strings, time, composite keys are modelled by hand and tied by a byte-for-byte correspondence run plus the direct oracle on the Go functions',
+            'note': 'trusted: Coq kernel, vm_compute, the gosyn translator, IEEE semantics of Go floats; JSON keys and float32 decode are covered by the implementation oracle only',
+            'technique': 'Coq proof over translated code + differential correspondence'},
+    'C01': {'text': 'Convergence is a Coq theorem over an operational replica model (level-sweep merge walk, LWW, counters, delete marker, heads) for every history, delivery order and duplication; the model is stepped on histories executed on 2-4 real nodes and must agree after every step; equality of all nodes at quiescence is also evaluated directly',
+            'note': 'hand-written model tied by correspondence; hash function, field-level heads, branchable collection blocks and encryption not modelled; float counters are a recorded finding (F3)',
+            'technique': 'Coq proof (invariant + permutation argument) + step-wise correspondence with real nodes'},
+    'C02': {'text': 'Counter = sum of merged increments, register = lexicographic maximum of merged writes, delete sticky, ancestors visible: Coq theorems for every reachable replica state; checked on real nodes after every single delivery against a harness-side reference and against the model',
+            'note': 'same model and trusted base as C01',
+            'technique': 'Coq proof + step-wise correspondence with real nodes'},
+    'C04': {'text': 'Heads = maximal merged commits, merged set closed under ancestry, merge walk exact (each unmerged ancestor once, parents first): Coq theorems; content addressing, heights, closure and field-level heads are evaluated on the raw stores of real nodes after every step',
+            'note': 'hash function abstract in the model; SHA-256 recomputed by the harness; field-level heads: implementation oracle only; F26 recorded',
+            'technique': 'Coq proof + raw store inspection'},
+}
